@@ -54,6 +54,16 @@ pub fn exec(case: &J, acc: &mut Acc) -> Result<(), Fail> {
             if h.fuel_exhausted() {
                 return Ok(None);
             }
+            if case["refused_before_reset"].as_bool().unwrap_or(false) {
+                // host calls the story refuses (they change nothing) just before the reset
+                if !h.story.can_continue() {
+                    let _ = h.story.cont();
+                    let _ = h.story.continue_async(5.0);
+                }
+                let _ = h.story.choose_choice_index(999);
+                let _ = h.story.choose_path_string("zz_nowhere", false, None);
+                h.log.borrow_mut().clear();
+            }
             let before_save = h.story.save_state().ok();
             let had_error = h.trace.iter().any(|o| matches!(o, Obs::Err { .. } | Obs::Handler { warning: false, .. }));
             let had_load = h.trace.iter().any(|o| matches!(o, Obs::Ret(s) if s == "loaded"));
@@ -334,7 +344,7 @@ pub fn run(env: &Env) -> i32 {
                 ..HostCfg::default()
             };
             let v = gc.hist.last().copied().unwrap_or(0) as usize;
-            let case = json!({"source": b.src, "cfg": cfg_to_json(&cfg), "ops": ops_to_json(&ops), "tails": [v, v / 7 + 1]});
+            let case = json!({"source": b.src, "cfg": cfg_to_json(&cfg), "ops": ops_to_json(&ops), "tails": [v, v / 7 + 1], "refused_before_reset": v % 3 == 0});
             acc.sample(|| case.clone());
             exec(&case, acc)
         },
@@ -363,7 +373,7 @@ pub fn run(env: &Env) -> i32 {
                 };
                 let v = hist.last().copied().unwrap_or(0) as usize;
                 acc.class("corpus_story");
-                let case = json!({"corpus_file": path, "cfg": cfg_to_json(&cfg), "ops": ops_to_json(&ops), "tails": [v]});
+                let case = json!({"corpus_file": path, "cfg": cfg_to_json(&cfg), "ops": ops_to_json(&ops), "tails": [v], "refused_before_reset": v % 3 == 0});
                 exec(&case, acc)
             },
         );
